@@ -1,5 +1,6 @@
 import Ark.Proofs.TableIDs
 import Ark.Proofs.ArchIndex
+import Ark.Props.C05Cache
 
 namespace Ark.Props.C05
 open Ark
@@ -24,5 +25,34 @@ theorem tableIDs_remove_mem : type_of% @TableIDs.WF.mem_remove := @TableIDs.WF.m
 
 /-- removing an absent table changes nothing -/
 theorem tableIDs_remove_absent : type_of% @TableIDs.WF.remove_of_not_mem := @TableIDs.WF.remove_of_not_mem
+
+
+/-! ### The cache invariant (I11): every registered entry lists exactly the tables the uncached walk
+    selects; established by registration and preserved by unregistration, table creation/
+    recycling, table freeing and Reset. -/
+
+/-- the uncached walk returns, without duplicates, exactly the active tables whose archetype matches the filter and whose targets match the relations -/
+theorem uncached_walk_selects_exactly : type_of% @Ark.Props.C05Cache.getCacheTables_spec := @Ark.Props.C05Cache.getCacheTables_spec
+
+/-- a registered filter and an identical unregistered one select the same tables (hence the same entities, Count and batch selection) -/
+theorem cached_eq_uncached : type_of% @Ark.Props.C05Cache.cached_eq_uncached_nodup := @Ark.Props.C05Cache.cached_eq_uncached_nodup
+
+/-- a new world satisfies the cache invariant -/
+theorem cache_inv_init : type_of% @Ark.Props.C05Cache.inv_init := @Ark.Props.C05Cache.inv_init
+
+/-- registration establishes it for the new entry and keeps the others -/
+theorem cache_inv_register : type_of% @Ark.Props.C05Cache.inv_register := @Ark.Props.C05Cache.inv_register
+
+/-- unregistration (swap-remove of entries, index fix-up) keeps it -/
+theorem cache_inv_unregister : type_of% @Ark.Props.C05Cache.inv_unregister := @Ark.Props.C05Cache.inv_unregister
+
+/-- when a table becomes active (created or recycled) `cache.addTable` re-establishes it -/
+theorem cache_inv_table_added : type_of% @Ark.Props.C05Cache.inv_addTable := @Ark.Props.C05Cache.inv_addTable
+
+/-- when a table is freed `cache.removeTable` re-establishes it -/
+theorem cache_inv_table_removed : type_of% @Ark.Props.C05Cache.inv_removeTable := @Ark.Props.C05Cache.inv_removeTable
+
+/-- Reset leaves the empty cache -/
+theorem cache_inv_reset : type_of% @Ark.Props.C05Cache.inv_reset := @Ark.Props.C05Cache.inv_reset
 
 end Ark.Props.C05
